@@ -18,6 +18,7 @@ DOMAINS = {
     "p04": {"letter": "P", "header_tokens": 4}, "roundtrip": {"letter": "Y", "header_tokens": 9}, "p17": {"letter": "P", "header_tokens": 4},
     "errstr": {"letter": "E", "header_tokens": 5}, "buffmt": {"letter": "F", "header_tokens": 9}, "expr": {"letter": "X", "header_tokens": 4},
     "p06": {"letter": "P", "header_tokens": 4}, "p08": {"letter": "P8", "header_tokens": 4}, "p09": {"letter": "P9", "header_tokens": 4}, "p09u": {"letter": "PU", "header_tokens": 4},
+    "p21": {"letter": "P", "header_tokens": 4},
 }
 
 PROPS = {
